@@ -371,8 +371,15 @@ def window_class(off, ln, o, wl, total):
     return oc, lc
 
 
+def source_bytes(c) -> bytes:
+    if 'srcgen' in c:                   # [seed, size]: a large source is described, not spelled out
+        import random
+        return random.Random(c['srcgen'][0]).randbytes(c['srcgen'][1])
+    return bytes.fromhex(c['src'])
+
+
 def judge_read(ctx, c):
-    src = bytes.fromhex(c['src'])
+    src = source_bytes(c)
     total = 8 * len(src)
     off, ln, via = c['offset'], c['length'], c['via']
     o = off or 0
@@ -395,7 +402,7 @@ def judge_read(ctx, c):
     elif limited and c['cls'] in util.MUTABLE:
         # C08's known defect: the mutable classes copy the mapped store and lose the length limit
         ic = 'file-offset0-length<file:mutable'
-    op = {'bytes': 'read:bytes=', 'bytearray': 'read:bytes=', 'BytesIO': 'read:BytesIO', 'handle': 'read:handle',
+    op = {'bytes': 'read:bytes=', 'bytearray': 'read:bytes=', 'memoryview': 'read:bytes=', 'BytesIO': 'read:BytesIO', 'handle': 'read:handle',
           'filename': 'read:filename'}[via]
     J = Judge(ctx, c, wl > 0)
     key = (c['cls'], via, oc, lc, wl % 8, sizeclass(total))
@@ -409,6 +416,14 @@ def judge_read(ctx, c):
                 return cls(bytes=src, **kw)
             if via == 'bytearray':
                 return cls(bytes=bytearray(src), **kw)
+            if via == 'memoryview':
+                # a memoryview is a view of BYTES whatever its item format (plain, or cast to 2- or 4-byte items)
+                mv = memoryview(src)
+                if len(src) % 4 == 0 and len(src) % 8 == 4:
+                    mv = mv.cast('I')
+                elif len(src) % 2 == 0 and len(src) % 4 == 2:
+                    mv = mv.cast('H')
+                return cls(bytes=mv, **kw)
             if via == 'BytesIO':
                 f = io.BytesIO(src)
                 hist = c.get('bio')
@@ -797,7 +812,7 @@ def gen_window(rng, total):
 
 def gen_read(ctx, via=None):
     rng = ctx.rng
-    via = via or rng.choice(['bytes', 'bytes', 'bytearray', 'BytesIO', 'BytesIO', 'handle', 'handle',
+    via = via or rng.choice(['bytes', 'bytes', 'bytearray', 'memoryview', 'BytesIO', 'BytesIO', 'handle', 'handle',
                              'filename', 'filename'])
     sizes = SRC_SIZES if ctx.quick else SRC_SIZES + [2500, 8750]
     size = rng.choice(sizes)
@@ -869,6 +884,10 @@ def directed(ctx):
         for via in ('filename', 'handle'):
             cases.append({'kind': 'read', 'cls': cls, 'via': via, 'src': src, 'offset': None, 'length': 9})
             cases.append({'kind': 'read', 'cls': cls, 'via': via, 'src': src, 'offset': 0, 'length': 16})
+    # windows of more than a megabyte over a still larger file (sizes at which an implementation may stop copying)
+    for cls in util.CLASS_NAMES:
+        for via, off, ln in (('filename', None, 8388608 + 13), ('handle', 0, 8388608 + 16), ('filename', 8, 8388608 + 5), ('bytes', 3, 8388608 + 1)):
+            cases.append({'kind': 'read', 'cls': cls, 'via': via, 'srcgen': [len(cases), 1048576 + 4096], 'offset': off, 'length': ln})
     # the empty bitstring written by tofile is an empty file: the empty window over it is a valid window
     for via in ('filename', 'handle'):
         for off, ln in [(None, None), (0, 0), (None, 0)]:
